@@ -84,8 +84,8 @@ theorem C19_xyz_one_step (p : Pt ℝ) (a b c tol : ℝ) (ξ : ℕ → ℝ)
 /-- consistent observations at the generating coordinates: every right-hand side is 0
     (vector, xyz, distance, height, height difference), so `x = 0` and the adjusted
     coordinates are the generating ones.
-    `_partial`: angles, zenith angles and azimuths are not modelled (see report: the angle
-    linearisation of the real code has a sign defect, found by the end-to-end oracle). -/
+    `_partial`: angles, zenith angles and azimuths are not modelled in Lean; angles are covered by the
+    end-to-end oracle only (it found the sign defect of the left-target coefficients, fixed in 97d6802). -/
 theorem C19_consistent_fixed_point_partial (frm tgt : Pt ℝ) (fdh tdh tol : ℝ) :
     (@linVector ℝ realScalar frm tgt
         (@Pt.Xdh ℝ realScalar tgt tdh - @Pt.Xdh ℝ realScalar frm fdh)
